@@ -1270,7 +1270,8 @@ static void initializer2(Token **rest, Token *tok, Initializer *init) {
     // An initializer for a scalar variable can be surrounded by
     // braces. E.g. `int x = {3};`. Handle that case.
     initializer2(&tok, tok->next, init);
-    *rest = skip(tok, "}");
+    if (!consume_end(rest, tok))
+      *rest = skip(tok, "}");
     return;
   }
 
